@@ -281,7 +281,7 @@ class Ctx(object):
     self.log('BROKEN', name, '--', detail[-600:].replace('\n', ' | '))
 
   # -- running the model inside Coq on generated cases
-  def run_cases(self, name, imports, check, cases, shard=400, timeout=300, extra_defs=''):
+  def run_cases(self, name, imports, check, cases, shard=400, timeout=300, extra_defs='', case_type=None):
     """
     cases: list of Coq terms (strings), all of the type `check` takes. Evaluates `check c` for every
     case with vm_compute (one coqc per shard, up to 8 in parallel) and returns the indexes on which
@@ -299,8 +299,11 @@ class Ctx(object):
         for imp in imports:
           f.write('Require Import %s.\n' % imp)
         f.write('Open Scope Z_scope.\n')
-        f.write(extra_defs + '\n')
-        f.write('Definition the_cases := [\n  ' + ';\n  '.join(part) + '\n].\n')
+        # extra_defs may be a function of the shard's cases (definitions only that shard needs);
+        # case_type, when given, annotates the list (much faster elaboration of big literals)
+        f.write((extra_defs(part) if callable(extra_defs) else extra_defs) + '\n')
+        f.write('Definition the_cases%s := [\n  ' % (' : list (%s)' % case_type if case_type else '') +
+                ';\n  '.join(part) + '\n].\n')
         f.write('Goal True. idtac "@@RESULT". exact I. Qed.\n')
         f.write('Eval vm_compute in (failing (%s) the_cases).\n' % check)
       paths.append((k, path))
